@@ -7,6 +7,7 @@ import (
 	"net/http"
 	"net/http/httptest"
 	"strings"
+	"sync/atomic"
 	"testing"
 	"time"
 
@@ -545,4 +546,112 @@ func TestC06Lattice(t *testing.T) {
 		return execC06HTTP(c)
 	}
 	RunEnum(t, "C06", cases, exec, ntC06)
+}
+
+// ---------------------------------------------------------------------------
+// a peer that stops reading its stream, floods the server with requests and then leaves
+
+type C06Flood struct {
+	N    int    `json:"n"`    // requests posted while the stream is stalled
+	Body string `json:"body"` // unknown-tool unknown-method bad-params valid-call valid-ping mixed
+	Pad  int    `json:"pad"`  // bytes of padding in each request (echoed in error texts)
+}
+
+func (c C06Flood) body(i int) string {
+	pad := strings.Repeat("x", c.Pad)
+	kind := c.Body
+	if kind == "mixed" {
+		kind = []string{"unknown-tool", "valid-call", "unknown-method", "bad-params", "valid-ping"}[i%5]
+	}
+	switch kind {
+	case "unknown-tool":
+		return fmt.Sprintf(`{"jsonrpc":"2.0","id":"f%d","method":"tools/call","params":{"name":"nope-%s","arguments":{}}}`, i, pad)
+	case "unknown-method":
+		return fmt.Sprintf(`{"jsonrpc":"2.0","id":"f%d","method":"verif/%s"}`, i, pad)
+	case "bad-params":
+		return fmt.Sprintf(`{"jsonrpc":"2.0","id":"f%d","method":"tools/call","params":"%s"}`, i, pad)
+	case "valid-call":
+		return fmt.Sprintf(`{"jsonrpc":"2.0","id":"f%d","method":"tools/call","params":{"name":"alpha","arguments":{"nonce":"%s"}}}`, i, pad)
+	}
+	return fmt.Sprintf(`{"jsonrpc":"2.0","id":"f%d","method":"ping"}`, i)
+}
+
+func execC06Flood(c C06Flood) *Failure {
+	before := LibGoroutines()
+	sse := mcp.NewSSEServer("c06", "1", mcp.WithSSEServerLogger(nopLogger{}), mcp.WithKeepAlive(false))
+	w := &World{Calls: map[string]int{}}
+	w.Register(RegistrarOf(sse), c06Reg)
+	var stalled atomic.Bool
+	gate := make(chan struct{})
+	hook := func(kind string, n int) {
+		if stalled.Load() {
+			<-gate
+		}
+	}
+	stream := StartLive(sse, "GET", "http://verif/sse", map[string]string{"Accept": "text/event-stream"}, nil, hook)
+	released := false
+	release := func() {
+		if !released {
+			released = true
+			stream.PeerGone()
+			close(gate)
+		}
+	}
+	defer release()
+	evs := stream.WaitEvents(1, 2*time.Second)
+	if len(evs) < 1 || evs[0].Event != "endpoint" {
+		return Failf("C06/connect", "legacy: no endpoint event")
+	}
+	endpoint := evs[0].Data
+	post := func(body string) int {
+		rec := httptest.NewRecorder()
+		sse.ServeHTTP(rec, httptest.NewRequest("POST", "http://verif"+endpoint, strings.NewReader(body)))
+		return rec.Code
+	}
+	post(string(InitRequest("0", "2025-03-26")))
+	stream.WaitEvents(2, 2*time.Second)
+	post(`{"jsonrpc":"2.0","method":"notifications/initialized"}`)
+	// the peer stops reading; everything the server writes from now on blocks
+	stalled.Store(true)
+	for i := 0; i < c.N; i++ {
+		if code := post(c.body(i)); code >= 500 {
+			return Failf("C06/flood-5xx", "legacy: request %d of the flood (%s) answered with HTTP %d", i, c.Body, code)
+		}
+	}
+	time.Sleep(5 * time.Millisecond)
+	// another client is still served while the first one is stuck
+	other := StartLive(sse, "GET", "http://verif/sse", map[string]string{"Accept": "text/event-stream"}, nil, nil)
+	oevs := other.WaitEvents(1, Patience())
+	if len(oevs) < 1 {
+		other.PeerGone()
+		return TimingFailf("C06/stops-serving-others", "legacy: while one peer is not reading its stream (%d %s requests queued) a new client got no endpoint event", c.N, c.Body)
+	}
+	orec := httptest.NewRecorder()
+	sse.ServeHTTP(orec, httptest.NewRequest("POST", "http://verif"+oevs[0].Data, bytes.NewReader(InitRequest("7", "2025-03-26"))))
+	if got := other.WaitEvents(2, Patience()); len(got) < 2 {
+		other.PeerGone()
+		return TimingFailf("C06/stops-serving-others", "legacy: while one peer is not reading its stream (%d %s requests queued) a new client's initialize was not answered (POST status %d %.100q)", c.N, c.Body, orec.Code, orec.Body.String())
+	}
+	other.PeerGone()
+	other.WaitReturned(Patience())
+	// the stuck peer leaves
+	release()
+	if !stream.WaitReturned(Patience()) {
+		return TimingFailf("C06/stream-handler-stuck", "legacy: the stream handler did not return after the flooding peer left")
+	}
+	if d := WaitNoLeak(before, Patience()); len(d) > 0 {
+		return TimingFailf("C06/goroutine-leak/"+strings.SplitN(d[0], " (", 2)[0], "legacy: after a peer that queued %d %s requests without reading left, library goroutines remain: %v", c.N, c.Body, d)
+	}
+	return nil
+}
+
+func TestC06Flood(t *testing.T) {
+	RunProp(t, Prop[C06Flood]{ID: "C06",
+		Gen: func(t *rapid.T) C06Flood {
+			return C06Flood{N: rapid.SampledFrom([]int{1, 20, 99, 100, 101, 140, 300}).Draw(t, "n"),
+				Body: rapid.SampledFrom([]string{"unknown-tool", "unknown-method", "bad-params", "valid-call", "valid-ping", "mixed"}).Draw(t, "body"),
+				Pad:  rapid.SampledFrom([]int{0, 100, 5000}).Draw(t, "pad")}
+		},
+		Exec: execC06Flood,
+		NT:   func(c C06Flood) (bool, []string) { return c.N > 100, []string{"body=" + c.Body} }})
 }
